@@ -70,9 +70,16 @@ structure ClipClip (α : Type) where
 def ClipClip.check (p : ClipClip α) : Bool :=
   boundOk p.a && boundOk p.b && boundOk p.c && boundOk p.d
 
-/-- `FuseSuccessiveClip`: the formula **the code uses**: `lo' = max a c`, `hi' = min b d`. -/
-def ClipClip.build [Min α] [Max α] (p : ClipClip α) : ClipRepl α :=
+/-- `FuseSuccessiveClip` **before fix F3** (commit b85b7db): `lo' = max a c`, `hi' = min b d` — kept for the
+`…_prefix_refuted` documentation theorems only. -/
+def ClipClip.buildPrefix [Min α] [Max α] (p : ClipClip α) : ClipRepl α :=
   { lo := combine max p.a.val? p.c.val?, hi := combine min p.b.val? p.d.val? }
+
+/-- `FuseSuccessiveClip.compute_clip_min_max` as it is now: `lo' = max a c`;
+`if max1 and min2 are present: max1 = max(max1, min2)`; `hi' = min max1 d`. -/
+def ClipClip.build [Min α] [Max α] (p : ClipClip α) : ClipRepl α :=
+  { lo := combine max p.a.val? p.c.val?,
+    hi := combine min (combine max p.b.val? (match p.b.val? with | some _ => p.c.val? | none => none)) p.d.val? }
 
 def ClipClip.run [Min α] [Max α] (p : ClipClip α) : Outcome (ClipRepl α) :=
   if !p.check then .nofire
@@ -84,13 +91,7 @@ def ClipClip.lhs [Min α] [Max α] (p : ClipClip α) (x : α) : α :=
 
 def ClipRepl.rhs [Min α] [Max α] (r : ClipRepl α) (x : α) : α := clip r.lo r.hi x
 
-/-- The closed form that is right for all bounds (proposed fix F3):
-`lo' = max a c`, `hi' = min (max b c) d`. -/
-def ClipClip.buildExact [Min α] [Max α] (p : ClipClip α) : ClipRepl α :=
-  { lo := combine max p.a.val? p.c.val?,
-    hi := combine min (combine max p.b.val? (match p.b.val? with | some _ => p.c.val? | none => none)) p.d.val? }
-
-/-- Exactly the region where the code's formula is wrong (finding D2): both `b` and `c` are present,
+/-- Exactly the region where the pre-fix formula was wrong (finding D2, fixed): both `b` and `c` are present,
 `b < c`, and `d` is absent or `b < d`. -/
 def ClipClip.d2 [LT α] [DecidableRel (α := α) (· < ·)] (p : ClipClip α) : Bool :=
   match p.b.val?, p.c.val? with
@@ -105,15 +106,25 @@ structure ReluClip (α : Type) where
 
 def ReluClip.check (p : ReluClip α) : Bool := boundOk p.a && boundOk p.b
 
-/-- `FuseSuccessiveClipRelu.compute_clip_min_max` (shared by `FuseSuccessiveReluClip`):
-`lo' = max 0 (a or 0)`, `hi' = b`. -/
+/-- `FuseSuccessiveClipRelu.compute_clip_min_max` (`Clip(Relu(x), a, b)`): `lo' = max 0 (a or 0)`, `hi' = b`.
+Before fix F4 (commit 979daa2) `FuseSuccessiveReluClip` inherited this formula (`…_prefix_refuted`). -/
 def ReluClip.build [Max α] (zero : α) (p : ReluClip α) : ClipRepl α :=
   { lo := some (max zero (p.a.val?.getD zero)), hi := p.b.val? }
+
+/-- `FuseSuccessiveReluClip.compute_clip_min_max` (`Relu(Clip(x, a, b))`) as it is now:
+`lo' = max 0 (a or 0)`, `hi' = max 0 b`. -/
+def ReluClip.buildReluClip [Max α] (zero : α) (p : ReluClip α) : ClipRepl α :=
+  { lo := some (max zero (p.a.val?.getD zero)), hi := p.b.val?.map (max zero) }
 
 def ReluClip.run [Max α] (zero : α) (p : ReluClip α) : Outcome (ClipRepl α) :=
   if !p.check then .nofire
   else if !p.dtype1 then .raises
   else .fire (p.build zero)
+
+def ReluClip.runReluClip [Max α] (zero : α) (p : ReluClip α) : Outcome (ClipRepl α) :=
+  if !p.check then .nofire
+  else if !p.dtype1 then .raises
+  else .fire (p.buildReluClip zero)
 
 /-- `Clip(Relu(x), a, b)`. -/
 def ReluClip.lhsClipRelu [Min α] [Max α] (zero : α) (p : ReluClip α) (x : α) : α :=
@@ -123,11 +134,7 @@ def ReluClip.lhsClipRelu [Min α] [Max α] (zero : α) (p : ReluClip α) (x : α
 def ReluClip.lhsReluClip [Min α] [Max α] (zero : α) (p : ReluClip α) (x : α) : α :=
   relu zero (clip p.a.val? p.b.val? x)
 
-/-- Right for all bounds (proposed fix F4): `lo' = max 0 a`, `hi' = max 0 b`. -/
-def ReluClip.buildExactReluClip [Max α] (zero : α) (p : ReluClip α) : ClipRepl α :=
-  { lo := some (max zero (p.a.val?.getD zero)), hi := p.b.val?.map (max zero) }
-
-/-- Region where `Relu(Clip(x,a,b)) → Clip(x, max 0 a, b)` is wrong (finding D1): `b` present and `b < 0`. -/
+/-- Region where the pre-fix `Relu(Clip(x,a,b)) → Clip(x, max 0 a, b)` was wrong (finding D1, fixed): `b` present and `b < 0`. -/
 def ReluClip.d1 [LT α] [DecidableRel (α := α) (· < ·)] (zero : α) (p : ReluClip α) : Bool :=
   match p.b.val? with
   | some b => decide (b < zero)
